@@ -104,6 +104,7 @@ type FEnc struct {
 	ghostErr error
 	cur *State
 	pendingLeaks []int
+	rangeGhost   map[*ssa.Range]int // map iteration -> ghost cell holding the set of keys visited so far
 	mergeTarget  *State   // state being built at a join (for merge objects)
 	mergeSources []*State // predecessor exit states, parallel to the values being merged
 }
@@ -423,6 +424,13 @@ func (e *FEnc) markAliased(v *Val) {
 	if v.Box != nil {
 		e.markAliased(v.Box)
 	}
+}
+
+func (e *FEnc) freshCell(a *AllocInfo, prefix string) *Val {
+	if a.GhostSort != "" {
+		return &Val{Sort: a.GhostSort, T: e.fresh(prefix+"_ghost", a.GhostSort)}
+	}
+	return e.newVal(a.Ty, prefix+"_"+mangle(a.Name))
 }
 
 func (e *FEnc) havocSet(st *State, ids map[int]bool) {
@@ -1314,10 +1322,22 @@ func (e *FEnc) enterBlock(b *ssa.BasicBlock) *State {
 		e.vals[ph] = e.newVal(ph.Type(), "lv_"+mangle(ph.Comment))
 	}
 	mod, callsOrHeap := e.loopModifies(li)
+	ghostMod := map[int]bool{}
+	for b := range li.body {
+		for _, in := range b.Instrs {
+			if nx, ok := in.(*ssa.Next); ok {
+				if rg, ok := nx.Iter.(*ssa.Range); ok {
+					if id, ok := e.rangeGhost[rg]; ok {
+						ghostMod[id] = true
+					}
+				}
+			}
+		}
+	}
 	for id := range hs.cells {
 		a := e.allocs[id]
-		if a.Instr != nil && mod[a.Instr] || (hs.leaked[id] && callsOrHeap) {
-			hs.cells[id] = e.newVal(a.Ty, "lc_"+mangle(a.Name))
+		if a.Instr != nil && mod[a.Instr] || (hs.leaked[id] && callsOrHeap) || ghostMod[id] {
+			hs.cells[id] = e.freshCell(a, "lc")
 		}
 	}
 	if callsOrHeap {
